@@ -2,7 +2,7 @@
 # tools/run_all.sh [quick|thorough] -- run every registered check sequentially on the current tree,
 # print one line per check, exit non-zero if any check did.
 TIER=${1:-quick}
-cd /verif
+cd "$(dirname "$0")/.."
 rc=0
 for id in $(python3 -c "import json;print(' '.join(c['property_id'] for c in json.load(open('MANIFEST.json'))['checks']))"); do
   t0=$(date +%s)
